@@ -162,6 +162,23 @@ def _s14(s):
             lab(L), call('mid', ('+', I(L), 8)), op(None, I(L))]
 
 
+@skeleton('relative-names-climbing-to-the-root', 2, lambda s: True)
+def _s15(s):
+    X, L = s
+    # the same macro / label name exists at the root, in N and in N.M; `..X` inside N and `...X` inside N.M mean the ROOT one
+    m_root = mdef(X + 'm', [], body=[op(1, None)])
+    m_n = mdef(f'N.{X}m', [], body=[op(2, None)])
+    m_nm = mdef(f'N.M.{X}m', [], body=[op(3, None)])
+    inner = ('ns', 'M', [m_nm, lab(f'N.M.{L}', L), op(None, None),
+                         call(X + 'm', spelling=f'...{X}m'), call(f'N.{X}m', spelling=f'..{X}m'), call(f'N.M.{X}m', spelling=f'.{X}m'),
+                         op(ident(L, f'...{L}'), ident(f'N.{L}', f'..{L}')), op(None, ident(f'N.M.{L}', f'.{L}'))])
+    return [m_root, lab(L), op(None, None),
+            ('ns', 'N', [m_n, lab(f'N.{L}', L), op(None, None), inner,
+                         call(X + 'm', spelling=f'..{X}m'), call(f'N.{X}m', spelling=f'.{X}m'),
+                         op(ident(L, f'..{L}'), ident(f'N.{L}', f'.{L}'))]),
+            call(X + 'm'), call(f'N.{X}m'), call(f'N.M.{X}m'), op(ident(L), ident(f'N.M.{L}'))]
+
+
 def programs(pool=POOL):
     """yield (skeleton name, slots, program, collisions) for every well-formed assignment"""
     for name, n, wf, build in SKELETONS:
